@@ -6,6 +6,7 @@ import (
 	"context"
 	"fmt"
 	"net"
+	"runtime"
 	"sort"
 	"strconv"
 	"strings"
@@ -62,7 +63,8 @@ type BytesPlan struct {
 	Body         []byte `json:"body"`
 	CL           string `json:"cl,omitempty"` // "": len(Body); "none": no header; otherwise literal
 	ReadErrAfter int    `json:"read_err_after,omitempty"`
-	QType        uint16 `json:"qtype,omitempty"` // queries that get the body (0: all)
+	Stream       int64  `json:"stream,omitempty"` // > 0: that many zero octets without content-length instead of Body
+	QType        uint16 `json:"qtype,omitempty"`  // queries that get the body (0: all)
 	Host         string `json:"host"`
 	CacheOff     bool   `json:"cache_off"`
 	Note         string `json:"note,omitempty"`
@@ -151,7 +153,7 @@ func genC12(seed uint64, idx int, tier string) *Plan {
 	return &Plan{Kind: "mutate", Seed: seed, Mutate: p}
 }
 
-var advLayouts = []string{"q2", "owner", "cname", "https", "svcb", "mx", "soa", "soa2", "srv", "nsec", "rrsig", "ns"}
+var advLayouts = []string{"q2", "owner", "cname", "https", "svcb", "mx", "soa", "soa2", "soa3", "srv", "nsec", "rrsig", "ns"}
 
 func genAdv(seed uint64, idx int, tier string) *Plan {
 	r := core.NewRand(seed, "plan")
@@ -196,6 +198,25 @@ func genAdvLong(r interface {
 	IntN(int) int
 }, s int) []byte {
 	var b []byte
+	if r.IntN(4) == 1 {
+		// two names: the first is one label whose content is a row of pointer
+		// pairs; the second name enters that row from behind. Inside the row a
+		// pair may point forwards (still before the second name) or backwards:
+		// only "strictly below the previous jump" terminates for all of them.
+		k := 2 + r.IntN(5)
+		b = append(b, byte(2*k))
+		for i := 0; i < k; i++ {
+			j := r.IntN(k) // any pair of the row, forwards or backwards
+			if r.IntN(3) == 0 {
+				b = append(b, 0xC0, 0x0C)
+			} else {
+				b = append(b, 0xC0, byte(s+1+2*j))
+			}
+		}
+		b = append(b, 0)                           // end of the first name
+		b = append(b, 0xC0, byte(s+1+2*r.IntN(k))) // the second name
+		return b
+	}
 	if r.IntN(4) == 0 {
 		// a ladder of pointers hidden in the content of a label, entered
 		// from behind: ... each hop points backwards, into the label
@@ -273,6 +294,7 @@ var advLayoutTab = map[string]advLayout{
 	"mx":    {1, 15, []byte{0, 10}, nil},
 	"soa":   {1, 6, nil, append([]byte{0xC0, 0x0C}, make([]byte, 20)...)},
 	"soa2":  {1, 6, []byte{0xC0, 0x0C}, make([]byte, 20)},
+	"soa3":  {1, 6, nil, make([]byte, 20)}, // both names (mname, rname) come from the adversarial octets
 	"srv":   {1, 33, []byte{0, 1, 0, 2, 0, 80}, nil},
 	"nsec":  {1, 47, nil, []byte{0, 1, 0x40}},
 	"rrsig": {1, 46, make([]byte, 18), []byte{1, 2, 3, 4}},
@@ -484,6 +506,7 @@ type bodyCase struct {
 	cl      *string
 	readErr int
 	skip    bool
+	stream  int64 // > 0: an unbounded-looking body without content-length
 }
 
 type resolveVerdict struct {
@@ -508,7 +531,7 @@ func resolveBodies(t *testing.T, zone *simdoh.Zone, host string, qtype uint16, c
 			if e.QName == "" || (qtype != 0 && e.QType != qtype) {
 				return nil
 			}
-			return &simdoh.Reply{Status: 200, Body: c.body, CL: c.cl, ReadErrAfter: c.readErr}
+			return &simdoh.Reply{Status: 200, Body: c.body, CL: c.cl, ReadErrAfter: c.readErr, Stream: c.stream}
 		}
 		for i := 0; i < n; i++ {
 			c = get(i)
@@ -529,10 +552,19 @@ func resolveBodies(t *testing.T, zone *simdoh.Zone, host string, qtype uint16, c
 			t0 := time.Now()
 			var rerr error
 			var rr ech.ResolveResult
+			var ms0, ms1 runtime.MemStats
+			if c.stream > 0 {
+				runtime.ReadMemStats(&ms0)
+			}
 			panicked, pmsg, psite := core.Guard(func() { rr, rerr = rs.Resolve(context.Background(), host) })
 			el := time.Since(t0)
 			v := resolveVerdict{status: "ok", reqs: srv.LogLen() - before}
+			if c.stream > 0 {
+				runtime.ReadMemStats(&ms1)
+			}
 			switch {
+			case c.stream > 0 && !panicked && ms1.TotalAlloc-ms0.TotalAlloc > 8<<20:
+				v = resolveVerdict{status: "balloon", site: "Resolve reads a DoH body of undeclared length into memory", detail: fmt.Sprintf("%d MiB allocated for a %d MiB body without content-length", (ms1.TotalAlloc-ms0.TotalAlloc)>>20, c.stream>>20)}
 			case panicked:
 				v = resolveVerdict{status: "panic", site: psite + ": " + normMsg(pmsg), detail: pmsg}
 			case el > 3*16*time.Second+time.Second:
@@ -595,7 +627,7 @@ func newMutator(base []byte, lay *simdoh.Layout, fam string, masks []byte) *muta
 		sort.Ints(m.sub)
 		m.n = len(m.sub) * (len(lenDeltas) + 3)
 	case "http":
-		m.n = len(httpCLs) + 4
+		m.n = len(httpCLs) + 5
 	}
 	return m
 }
@@ -707,6 +739,9 @@ func (m *mutator) get(i int, buf []byte) (c bodyCase, desc string) {
 				s := strconv.Itoa(L - 1)
 				c.cl = &s
 				desc = "content-length one less than the body"
+			case 3:
+				c.stream = 24 << 20
+				desc = "24 MiB body without content-length"
 			default:
 				b = append(b, b...)
 				desc = "body sent twice"
@@ -851,7 +886,7 @@ func executeMutate(t *testing.T, prop string, pl *Plan) *core.Result {
 		counts["resolve_"+v.status]++
 		if v.status != "ok" && v.status != "err" {
 			c, _ := mu.get(i, buf)
-			hint := &BytesPlan{Body: append([]byte(nil), c.body...), CL: clText(c.cl), ReadErrAfter: c.readErr, Host: p.Host, QType: p.QType, CacheOff: p.CacheOff, Note: last}
+			hint := &BytesPlan{Body: append([]byte(nil), c.body...), CL: clText(c.cl), ReadErrAfter: c.readErr, Stream: c.stream, Host: p.Host, QType: p.QType, CacheOff: p.CacheOff, Note: last}
 			tally.fail(v.status, v.site, hint, "Resolve(%q) with %s: %s", p.Host, last, v.detail)
 		}
 		if status[i] == 'o' && v.status == "ok" {
@@ -1052,7 +1087,7 @@ func executeBytes(t *testing.T, prop string, pl *Plan) *core.Result {
 		}
 		zone := &simdoh.Zone{RRs: []simdoh.RR{{Name: host, Type: simdoh.TypeA, TTL: 60, IP: "10.1.1.1"}}}
 		harness, simNs := resolveBodies(t, zone, host, p.QType, p.CacheOff, 1, func(int) bodyCase {
-			c := bodyCase{body: p.Body, readErr: p.ReadErrAfter}
+			c := bodyCase{body: p.Body, readErr: p.ReadErrAfter, stream: p.Stream}
 			switch p.CL {
 			case "":
 			case "none":
